@@ -340,4 +340,11 @@ def sum_product(x, y):
         >>> sum_prod(x, y)
         tensor([-0.1201,  0.7353,  1.0557])
     """
-    return 2 * torch.arctanh(torch.tanh(x / 2) * torch.tanh(y / 2))
+    # The tanh/arctanh form is accurate for small magnitudes but tanh evaluates to exactly 1.0 in
+    # float32 once |x|/2 > 9, so for strong LLRs it returns +-inf; there the equivalent identity
+    # sign*min + log1p(exp(-|x+y|)) - log1p(exp(-|x-y|)) is used instead
+    abs_x, abs_y = torch.abs(x), torch.abs(y)
+    product = (torch.tanh(x / 2) * torch.tanh(y / 2)).clamp(-1 + 1e-7, 1 - 1e-7)
+    small = 2 * torch.arctanh(product)
+    large = torch.sign(x) * torch.sign(y) * torch.minimum(abs_x, abs_y) + torch.log1p(torch.exp(-torch.abs(x + y))) - torch.log1p(torch.exp(-torch.abs(x - y)))
+    return torch.where(torch.minimum(abs_x, abs_y) < 10.0, small, large)
